@@ -50,8 +50,10 @@
 (* MC_ZNode_install_torn.cfg refutes PurgeKeepsRestorable / Recoverable - known finding   *)
 (* c06-torn-restore-blocks-engine-open) and InstLatestAfterSave (FALSE = the store's      *)
 (* latest-snapshot index, which the checkpoint purge trusts, moves before the hard state  *)
-(* is in the WAL: MC_ZNode_install_code.cfg refutes PurgeKeepsRestorable - a suspicion,   *)
-(* its schedule needs a checkpoint purge inside that window and was not replayed).        *)
+(* is in the WAL: that is the code's order; it is safe as long as no checkpoint purge of  *)
+(* a local backup falls between SaveSnap and wal.Save, which PurgePromptly = TRUE states  *)
+(* (see the constant): MC_ZNode_install_code.cfg = the code's order + PurgePromptly holds  *)
+(* every property; MC_ZNode_install_slowpurge.cfg drops the assumption and is refuted).   *)
 (* Deliberate deviations: one snapshot goroutine at a time; at most one install; an       *)
 (* install Ready carries no entries.                                                      *)
 EXTENDS Integers, Sequences, FiniteSets, TLC
@@ -78,6 +80,17 @@ CONSTANTS MaxOps,      \* number of client operations
                        \* in the WAL (the design); FALSE = the code's order in persistRaftState
                        \* (UpdateSnapshotState between SaveSnap and wal.Save): MC_ZNode_install_code.cfg
                        \* refutes PurgeKeepsRestorable with it (suspicion, not replayed on real code)
+          PurgePromptly, \* TRUE: the checkpoint purge that follows a local backup has run before a later
+                       \* install can finish fetching its checkpoint.  Mechanism in the code: rockredis
+                       \* checkpointDirLock - backupLoop holds it while it writes the checkpoint, the apply
+                       \* goroutine starts that backup BEFORE it can turn to the install, PrepareSnapshot's
+                       \* IsLocalBackupOK needs the read lock and so waits for the whole backup, and the purge
+                       \* is the next statement of backupLoop (it re-takes the lock as soon as that short
+                       \* reader is gone), long before the install's peer check, file copy and two fsyncs are
+                       \* over.  Observed on real code (crashsim -kind instpurge): backup done 35.389, purge at
+                       \* once with the old latest index, install transfer done 35.390.  A scheduling
+                       \* assumption, not a guarantee: with FALSE (MC_ZNode_install_slowpurge.cfg) and the
+                       \* code's order InstLatestAfterSave = FALSE TLC refutes PurgeKeepsRestorable.
           Mutant       \* "" = the design; otherwise one guard is removed (self-test)
 
 VARIABLES
@@ -381,6 +394,8 @@ InstPublish ==
 (* apply goroutine: the checkpoint of the leader's snapshot is copied into the local backup dir *)
 InstPrepare ==
   /\ up /\ pcA = "iprep"
+  /\ pcS # "copy"                 \* checkpointDirLock: IsLocalBackupOK waits for a running local backup
+  /\ (PurgePromptly => ~purgeCk)  \* ... and that backup's purge has run as well (scheduling assumption)
   /\ ckpt' = [x \in DOMAIN ckpt \cup {cur.snap} |-> IF x = cur.snap THEN SubSeq(glog, 1, cur.snap) ELSE ckpt[x]]
   /\ cur' = [cur EXCEPT !.prep = TRUE]
   /\ pcA' = IF Mutant = "RestoreBeforePersist" THEN "irestore" ELSE "iwait1"
